@@ -65,31 +65,12 @@ def run(rep):
     rep.trusted = ['syn parser and the abstract semantics of Engine A', 'wgpu\'s own behaviour behind set_bind_group / create_bind_group', 'C11: groups dense from 0 (position == index)']
     crate = ogp.crate
     # ---- anchor: per-group template inside the repetition over the group map --------------------------------------------------
-    hits = []
-    for q, v in ogp.summaries.items():
-        for t in E.find_templates(v, lambda t: '( wgpu :: BindGroup ) ;' in E.tmpl_text(t)):
-            if t[3] == q:
-                hits.append((q, t))
+    hits = E.repetition_anchor(ogp, lambda t: '( wgpu :: BindGroup ) ;' in E.tmpl_text(t))
     rep.floor('per-group template (`pub struct BindGroup<N>(wgpu::BindGroup);`)', len(hits), 1)
     if not hits:
         return
-    q, gt = hits[0]
-    stars = []
-    E.walk(ogp.summaries[q], lambda x: stars.append(x) if x[0] == 'star' and E.find_templates(x[3], lambda y: y is gt) else None)
-    if not stars:
-        # the per-group items are built by a helper: the repetition over the group map is in the function calling it (the one closest to the
-        # helper, i.e. with the smallest call graph, in whose summary the helper is inlined)
-        cands = []
-        for q2, v2 in ogp.summaries.items():
-            ss = []
-            E.walk(v2, lambda x: ss.append(x) if x[0] == 'star' and E.find_templates(x[3], lambda y: y[1] == gt[1] and y[3] == gt[3]) else None)
-            if ss and gt[3] in crate.call_graph()[q2]:
-                cands.append((len(crate.call_graph()[q2]), q2))
-        if cands:
-            q = sorted(cands)[0][1]
-            gts = E.find_templates(ogp.summaries[q], lambda y: y[1] == gt[1] and y[3] == gt[3])
-            gt = gts[0]
-            E.walk(ogp.summaries[q], lambda x: stars.append(x) if x[0] == 'star' and E.find_templates(x[3], lambda y: y is gt) else None)
+    q, gt, _s = hits[0]
+    stars = [_s]
     f = crate.fns[q]
     where = f"{crate.relfile(f['file'])} fn {f['name']}"
     summ = ogp.summaries[q]
